@@ -1163,13 +1163,15 @@ class SpaceGraph(nx.DiGraph):
 
         while True:
 
-            if basroot in self.get_mro(subroot):
+            # subroot is empty when the trailing names coincide all the way
+            # up to a top-level sub space (C deriving from Q.C)
+            if subroot and basroot in self.get_mro(subroot):
                 break
 
             if shared_desc:
                 n = shared_desc.pop(0)
-                subroot = ".".join(subroot.split(".") + [n])
-                basroot = ".".join(basroot.split(".") + [n])
+                subroot = subroot + "." + n if subroot else n
+                basroot = basroot + "." + n if basroot else n
             else:
                 raise RuntimeError("must not happen")
 
